@@ -12,7 +12,7 @@ S=${VERIF_SCRATCH:-/var/tmp/verif-scratch-benign}
 vars=${@:-$(ls /verif/selftest/benign/*.sh)}
 bad=0
 for v in $vars; do
-  mkdir -p "$S"; rsync -a --delete --exclude .git /repo/ "$S/repo/"
+  mkdir -p "$S"; rsync -a --delete --exclude .git ${REPO_SRC:-/repo}/ "$S/repo/"
   "$v" "$S/repo" >/dev/null 2>&1
   if ! ( cd "$S/repo/go" && go build ./... ) >/dev/null 2>&1; then echo "BENIGN $(basename $v): variant does not build (variant script is stale)"; bad=1; continue; fi
   out=$(mktemp -d /var/tmp/verif-out.XXXXXX)
